@@ -55,6 +55,23 @@ NL_ASSUMED = {
     'self._print_exc_debug_info': Assumed(),
 }
 
+def _rec_norm(it, env, res):
+    from pyvc.values import scalar_arith
+    it.ctx.ghost['n_evals'] = scalar_arith('+', it.ctx.ghost.get('n_evals', 0), 1)
+    it.ctx.ghost['init_norm'] = res
+
+
+def NORM_EVAL():
+    return Assumed(returns=FP(), ensures=[NORM_OK], ghost=_rec_norm)
+
+
+# the norm handed back is the residual norm of the INITIAL ITERATE, evaluated exactly once (it is the value the
+# tolerances are first tested against); `guard` = the condition under which the class evaluates it
+def evaluated(guard):
+    return ["implies(%s, ghost('n_evals') == 1)" % guard,
+            "implies(%s, same_fp(result[1], ghost('init_norm')))" % guard]
+
+
 INIT_CONTRACT_ENS = [
     # abstract contract shared by every _iter_initialize (A7: overrides verified separately)
     'result[0] != 0.0',
@@ -65,10 +82,11 @@ INIT_CONTRACT_ENS = [
 
 contract(F + '::NonlinearSolver._iter_initialize', ['C09'],
          dict(self=nl_solver(_err_cache=DictT({}))), returns=TupleT(FP(), FP()),
-         ensures=INIT_CONTRACT_ENS, modifies=[], fp=True,
-         assumed={'self._iter_get_norm': Assumed(returns=FP(), ensures=[NORM_OK]),
+         ensures=INIT_CONTRACT_ENS, ensures_check_only=evaluated("self.options['maxiter'] > 0"), modifies=[], fp=True, ghost_init={'n_evals': 0, 'init_norm': None},
+         assumed={'self._iter_get_norm': NORM_EVAL(),
                   'self._run_apply': Assumed()},
-         canaries=[('zero initial norm not replaced by 1', ('norm0 = norm if norm != 0.0 else 1.0', 'norm0 = norm'), 'post')])
+         canaries=[('zero initial norm not replaced by 1', ('norm0 = norm if norm != 0.0 else 1.0', 'norm0 = norm'), 'post'),
+                   ('initial residual not evaluated when exactly one iteration is allowed', ("if self.options['maxiter'] > 0:", "if self.options['maxiter'] > 1:"), 'post')])
 
 POST_SOLVE = [
     # (a) at most maxiter iterations, except the single forced iteration under complex step
@@ -267,7 +285,7 @@ contract(F + '::Solver.report_failure', ['C09'],
          canaries=[('error flag ignored', ("if self.options['err_on_non_converge']:", "if False:"), 'exc')])
 
 # ---- overrides of _iter_initialize against the same abstract contract -----------------------------
-NRM = {'self._iter_get_norm': Assumed(returns=FP(), ensures=[NORM_OK]), 'self._run_apply': Assumed(),
+NRM = {'self._iter_get_norm': NORM_EVAL(), 'self._run_apply': Assumed(),
        'self._update_rhs_vec': Assumed(), 'system._guess_nonlinear': Assumed(), 'self._gs_iter': Assumed(),
        'self._solver_info.append_solver': Assumed(), 'self._solver_info.pop': Assumed(),
        'system._inputs._copy_vars': Assumed(returns=OpaqueT()), 'system._outputs._copy_vars': Assumed(returns=OpaqueT()),
@@ -276,7 +294,8 @@ NRM = {'self._iter_get_norm': Assumed(returns=FP(), ensures=[NORM_OK]), 'self._r
 
 contract(F + '::BlockLinearSolver._iter_initialize', ['C09'],
          dict(self=ln_solver('BlockLinearSolver')), returns=TupleT(FP(), FP()),
-         ensures=INIT_CONTRACT_ENS, modifies=[], fp=True, assumed=NRM,
+         # (block linear solvers deliberately skip the initial norm when a single sweep is requested)
+         ensures=INIT_CONTRACT_ENS, ensures_check_only=evaluated("self.options['maxiter'] > 1"), modifies=[], fp=True, assumed=NRM, ghost_init={'n_evals': 0, 'init_norm': None},
          canaries=[('zero initial norm not replaced by 1', ('norm0 = norm if norm != 0.0 else 1.0', 'norm0 = norm'), 'post')])
 
 contract('openmdao/solvers/linear/linear_block_gs.py::LinearBlockGS._iter_initialize', ['C09'],
@@ -294,7 +313,7 @@ contract('openmdao/solvers/nonlinear/newton.py::NewtonSolver._iter_initialize', 
                              options=DictT({'maxiter': Int(), 'atol': FP(), 'rtol': FP(), 'iprint': Int(),
                                             'err_on_non_converge': Bool(), 'debug_print': OneOf(False, True),
                                             'solve_subsystems': OneOf(False, True), 'max_sub_solves': Int()}))),
-         returns=TupleT(FP(), FP()), ensures=INIT_CONTRACT_ENS, modifies=['self._err_cache'], fp=True, assumed=NRM,
+         returns=TupleT(FP(), FP()), ensures=INIT_CONTRACT_ENS, ensures_check_only=evaluated('True'), modifies=['self._err_cache'], fp=True, assumed=NRM, ghost_init={'n_evals': 0, 'init_norm': None},
          canaries=[('zero initial norm not replaced by 1', ('norm0 = norm if norm != 0.0 else 1.0', 'norm0 = norm'), 'post')])
 
 contract('openmdao/solvers/nonlinear/nonlinear_block_gs.py::NonlinearBlockGS._iter_initialize', ['C09'],
@@ -303,6 +322,6 @@ contract('openmdao/solvers/nonlinear/nonlinear_block_gs.py::NonlinearBlockGS._it
                              options=DictT({'maxiter': Int(), 'atol': FP(), 'rtol': FP(), 'iprint': Int(),
                                             'err_on_non_converge': Bool(), 'debug_print': False,
                                             'use_aitken': OneOf(False, True), 'cs_reconverge': False}))),
-         returns=TupleT(FP(), FP()), ensures=INIT_CONTRACT_ENS,
-         modifies=['self._err_cache', 'self._delta_outputs_n_1', 'self._theta_n_1'], fp=True, assumed=NRM,
+         returns=TupleT(FP(), FP()), ensures=INIT_CONTRACT_ENS, ensures_check_only=evaluated("self.options['maxiter'] > 0"),
+         modifies=['self._err_cache', 'self._delta_outputs_n_1', 'self._theta_n_1'], fp=True, assumed=NRM, ghost_init={'n_evals': 0, 'init_norm': None},
          inline={'_iter_initialize'})
